@@ -32,7 +32,8 @@ CHECKS = {
              technique=T, ref="6/C08"),
  "C10": dict(text="TLC checks MossColl!DirectGetAgrees and CachedMemIsMem (the cached snapshot reads the in-memory sections as Collection.Get does); replays compare Collection.Get, Snapshot.Get and the iteration entry for every "
              "key of the universe after every step, with and without NoCopyValue and with SkipLowerLevel (against MossColl!MemView shipped with every step); "
-             "lead behaviours of the historical chain-on-nil deviation are replayed as regression cases.",
+             "lead behaviours of the historical chain-on-nil deviation are replayed as regression cases; every value a copying Get returned is kept, must lie outside every mapping of the data files "
+             "and must read the same after snapshot, collection and store are closed (also with a merge operator that hands back existingValue itself).",
              technique=T, ref="6/C10"),
  "C11": dict(text="Behaviours over a tree of child names (create, child-only batch, delete, recreate, nested) with incarnation numbers modelled as the code keeps them; names and content of every "
              "child at every level are compared from collection snapshots, the store snapshot and after reopen, under every compaction concern.",
@@ -58,12 +59,12 @@ STORE_NOTE = ("Trusted: TLC + CommunityModules Json; the File wrapper handed to 
 CHECKS.update({
  "C05": dict(text="TLC checks MossStore (every file operation one action, Crash anywhere, Recover = openStore/ScanFooter) for RecoverIsPrefix/AtLeastSynced/OpenNeverFails; TLC-chosen crash points and "
              "disk images (per file any subset of the un-synced records lost, the last write torn) are checked for legality against the recorded syncs, materialised from the writes the implementation really issued "
-             "(every tear offset class per record kind), reopened with the real OpenStore and compared; images of the deviation NoSyncBeforeFooter are legal only on a tree that does not sync before the footer.",
+             "(every tear offset class per record kind; the torn record ends the file or its unwritten tail reads as zeroes), reopened with the real OpenStore and compared; images of the deviation NoSyncBeforeFooter are legal only on a tree that does not sync before the footer.",
              technique=TS + TSB, ref="6/C05", engine="mossstore", note=STORE_NOTE),
  "C06": dict(text="TLC checks PublishedFooterReadable/CurrentFileExists with IOFail at every file operation; each abstract failing step is expanded into its concrete operations and error kinds "
              "(error, short write, stat error) on the recorded File; store content, a reopened copy of the directory, OnError/Persist errors and catch-up are compared.",
              technique=TS + TSB, ref="6/C06", engine="mossstore", note=STORE_NOTE),
- "C07": dict(text="TLC checks CompactionPreservesContent/FullCompactionShape/OldFilesGoAway over every splice point (policy is a parameter of the spec); forced full compactions and appends are replayed, "
+ "C07": dict(text="TLC checks CompactionPreservesContent/FullCompactionShape/OldFilesGoAway over every splice point (policy is a parameter of the spec); forced full compactions, appends, idle rounds (nothing to do: nothing may change) and idle compactions are replayed, "
              "content before/after, footer shape (segments, deletion markers, duplicates) and the directory listing are compared; partial compactions at the splice points the store's own policy chooses are taken by "
              "store-backed MossColl replays (overwrites, deletions, a child collection, preloaded large segment, reopen) under small level parameters, sized values and CompactionPercentage 1.0; the evidence counts them.",
              technique=TS + TSB, ref="6/C07", engine="mossstore", note=STORE_NOTE),
@@ -77,7 +78,7 @@ CHECKS.update({
 
 CHECKS.update({
  "C09": dict(text="TLC checks MossIter (cursor windows, heap order, Next, SeekTo with naive tries and restart, optimize() written as the code is) against the reference iterator for every shape, "
-             "pair of bounds and program of the configuration; the programs are run against real iterators (heap, single-segment and lower-level paths; mem / mossStore / application lower level).",
+             "pair of bounds, program and combination of the iterator options IncludeDeletions / SkipLowerLevel of the configuration; the programs are run against real iterators (heap, single-segment and lower-level paths; mem / mossStore / application lower level).",
              technique="TLA+ model checking (TLC on MossIter) + TLC-generated iterator programs run against the implementation", ref="6/C09", engine="mossiter",
              note="Trusted: TLC + Json; concretisation of the doubled key domain to prefix-sharing byte strings (and a key set with the empty, 0x00 and 0xFF keys); expected values are the reference iterator's, computed by TLC."),
  "C14": dict(text="segment_index.go and the windowed binary searches transcribed into MossIndex; TLC evaluates WindowSound/SameAsNoIndex on every (key set, quota, probe) of the configuration; every case is run "
@@ -92,13 +93,13 @@ CHECKS.update({
 
 CHECKS.update({
  "C03": dict(text="MossVis states the visibility rule (a snapshot holds, per writer, exactly the batches pushed before its linearization point; at least those that had returned when the call started); TLC checks it "
-             "on the bounded model and validates recorded traces of free-running concurrent executions (N writers on disjoint keys incl. a child collection, snapshot readers that re-read, Collection.Get readers, "
+             "on the bounded model and validates recorded traces of free-running concurrent executions (N writers on disjoint keys incl. a child collection -- batches that touch only the child, only the top level, or both --, thousands of shuffled keys per batch under DeferredSort, snapshot readers that re-read, Collection.Get readers, "
              "notifiers, back-pressure, store/app/mem) against TraceVis, with self-tests showing that a corrupted read or a dropped push event is rejected.",
              technique="TLA+ trace validation (TLC on TraceVis over recorded executions, direction B) + TLC on MossVis", ref="6/C03", engine="mossconc",
              note="Trusted: TLC + Json (ndJsonDeserialize); hook events are emitted under the collection mutex after the change and numbered from one counter shared with the driver's call/return events; pushes are attributed to writers through the Batch object identity."),
  "C16": dict(text="MossSync (mutex, condition variables, waitDirtyIncomingCh, bounded ping channel with pongs; writers, merger, persister with failing lower level, notifiers, closer) is checked by TLC for "
              "TopBounded, deadlock freedom, ClosedIsFinal and, under weak fairness, that every call returns; the counterexample schedules of its named deviations are replayed with gates on the real "
-             "library; free-running runs with a closer, notifiers, slow/failing lower levels and MaxDirtyOps are recorded, watched for calls that do not return, and validated against TraceSync; "
+             "library; free-running runs with a closer, notifiers, slow/failing lower levels and MaxDirtyOps are recorded, watched for calls that do not return, and validated against TraceSync (runs with child-only batches without closer and notifier, and runs whose lower level fails every update, are watched for calls that do not return only); "
              "the repository's own tests are run with -tags verif and every hook event of every collection they create is validated against TraceHooks (section dynamics of MossColl, TopBounded at every event).",
              technique="TLA+ model checking incl. liveness (TLC on MossSync) + gated replay of counterexample schedules + trace validation (TraceSync; TraceHooks over the repository's tests)", ref="6/C16", engine="mossconc",
              note="Trusted: TLC (liveness under weak fairness) + Json; the ping channel capacity is a spec constant (1 or 2) bound to the code's 10 in the gated scenario; a call counts as hanging after 3 s (gated) / 20 s (free-running) with a progressing lower level."),
